@@ -15,7 +15,7 @@ EXPLANATION = ("Real ofp_match.unpack/matches_with_wildcards/get_nw_*/IPAddr.inN
 FUNCTIONS = ["ofp_match.unpack/_unwire_wildcards/_normalize_wildcards/matches_with_wildcards/get_nw_src/get_nw_dst/__getattr__/is_wildcarded/from_packet",
              "IPAddr.inNetwork/toUnsigned", "FlowTable.add_entry/entry_for_packet", "TableEntry.effective_priority"]
 BOUNDS = {}
-OUTSIDE = ["tables with more than 3 entries", "frame-level field extraction for VLAN-in-VLAN / IP options beyond IHL 6",
+OUTSIDE = ["tables with more than 3 entries", "IP ToS values with ECN bits set (OpenFlow 1.0 only defines the 6 DSCP bits)", "LLC/SNAP framing, IGMP/GRE payloads", "frame-level field extraction for VLAN-in-VLAN / IP options beyond IHL 6",
            "wire matches whose wildcarded dl_type / nw_proto field is non-zero"]
 ASSUMPTIONS = ["packet tuples have the shape ofp_match.from_packet produces (kinds: IPv4 with/without transport ports, ARP, other ethertype)"]
 
@@ -213,6 +213,71 @@ def h_lookup_real(ctx, n):
                                          pm.nw_dst.toUnsigned() == p['nw_dst']))
 
 
+def h_extract(ctx, kind, tagged):
+  """field extraction from frame bytes: ofp_match.from_packet(ethernet(raw), in_port, spec_frags=True) vs a byte-offset extractor
+  written from OpenFlow 1.0 sec. 3.4 (header parsing flowchart)"""
+  from props import env
+  of = ctx.pox('pox.openflow.libopenflow_01'); pkt = ctx.pox('pox.lib.packet')
+  And, Or, Not, Ite = ctx.And, ctx.Or, ctx.Not, ctx.Ite
+  dst = list(ctx.bytes('dst', 6)); src = list(ctx.bytes('src', 6))
+  in_port = ctx.int('in_port', 0, 0xffff)
+  b = dst + src
+  exp = dict(in_port=in_port, dl_src=num(src), dl_dst=num(dst), dl_vlan=0xffff, dl_vlan_pcp=0)
+  if tagged:
+    tci = ctx.int('tci', 0, 0xffff)
+    b += [0x81, 0x00] + be(tci, 2)
+    exp['dl_vlan'] = tci & 0x0fff; exp['dl_vlan_pcp'] = tci >> 13
+  absent = ('nw_tos', 'nw_proto', 'nw_src', 'nw_dst', 'tp_src', 'tp_dst')
+  if kind == 'ip':
+    proto = ctx.int('proto', 0, 255)
+    for v in (2, 47): ctx.assume(proto != v)                  # IGMP / GRE bodies are not part of the OpenFlow tuple; keep parsing simple
+    tos = ctx.int('tos', 0, 63) << 2
+    fragword = ctx.int('fragword', 0, 0xffff)                  # 3 flag bits + 13-bit offset
+    ipsrc = list(ctx.bytes('ipsrc', 4)); ipdst = list(ctx.bytes('ipdst', 4))
+    sport = ctx.int('sport', 0, 0xffff); dport = ctx.int('dport', 0, 0xffff)
+    for v in (67, 68, 53, 5353, 520, 4789): ctx.assume(And(sport != v, dport != v))
+    l4 = be(sport, 2) + be(dport, 2) + [0, 0, 0, 0, 0, 0, 0, 0, 0x50, 0x10, 0, 0, 0, 0, 0, 0]      # valid as TCP (offset 5) and, read as UDP, length field = 0 -> handled below
+    l4u = be(sport, 2) + be(dport, 2) + be(8, 2) + [0, 0]
+    l4i = be(sport, 2) + [0, 0, 0, 0, 0, 0]                                                        # ICMP: type, code = first two bytes
+    is_udp = proto == 17; is_tcp = proto == 6; is_icmp = proto == 1
+    # choose the transport bytes that make that transport header well-formed
+    if bool(is_udp): seg = l4u
+    elif bool(is_icmp): seg = l4i
+    else: seg = l4
+    ip = [0x45, tos] + be(20 + len(seg), 2) + [0, 0] + be(fragword, 2) + [64, proto, 0, 0] + ipsrc + ipdst
+    b += [0x08, 0x00] + ip + seg
+    frag = Or((fragword & 0x2000) != 0, (fragword & 0x1fff) != 0)
+    exp.update(dl_type=0x0800, nw_tos=tos, nw_proto=proto, nw_src=num(ipsrc), nw_dst=num(ipdst))
+    if bool(frag): exp.update(tp_src=0, tp_dst=0); ctx.witness('fragment')
+    elif bool(Or(is_udp, is_tcp)): exp.update(tp_src=sport, tp_dst=dport); ctx.witness('ports')
+    elif bool(is_icmp): exp.update(tp_src=sport >> 8, tp_dst=sport & 0xff); ctx.witness('icmp')
+    else: exp.update(tp_src=None, tp_dst=None)
+  elif kind == 'arp':
+    op = ctx.int('op', 0, 0xffff)
+    spa = list(ctx.bytes('spa', 4)); tpa = list(ctx.bytes('tpa', 4))
+    b += [0x08, 0x06] + [0, 1, 8, 0, 6, 4] + be(op, 2) + list(ctx.bytes('sha', 6)) + spa + list(ctx.bytes('tha', 6)) + tpa
+    exp.update(dl_type=0x0806)
+    if bool(op <= 255): exp.update(nw_proto=op, nw_src=num(spa), nw_dst=num(tpa), nw_tos=None, tp_src=None, tp_dst=None)
+    else: exp.update({k: None for k in absent})
+  else:
+    et = ctx.int('ethertype', 0x0600, 0xffff)
+    for v in (0x0800, 0x0806, 0x8035, 0x8100, 0x88cc, 0x888e, 0x8847, 0x8848, 0x86dd): ctx.assume(et != v)
+    b += be(et, 2) + list(ctx.bytes('pay', 4))
+    exp.update(dl_type=et); exp.update({k: None for k in absent})
+  raw = env.tobytes(ctx, b)
+  m = of.ofp_match.from_packet(pkt.ethernet(raw), in_port, spec_frags=True)
+  def val(x):
+    if x is None: return None
+    if hasattr(x, 'toUnsigned'): return x.toUnsigned()
+    if hasattr(x, 'toRaw'): return num(list(x.toRaw()))
+    return x
+  for k, e in exp.items():
+    g = val(getattr(m, k))
+    if e is None: ctx.check('field %s is not set' % k, g is None)
+    else: ctx.check('field %s' % k, (g is not None) and (g == e))
+  ctx.witness('extracted')
+
+
 def obligations(tier):
   thorough = tier != 'quick'
   kinds = ['iptp', 'ipnotp', 'arp', 'other']
@@ -222,6 +287,9 @@ def obligations(tier):
   return [
     Obligation('O1_matcher', h_matcher, [dict(kind=k, tied=not thorough) for k in kinds], witnesses=('matched', 'nomatch'),
                desc='matches_with_wildcards(flow, packet) <=> OpenFlow 1.0 predicate, flow decoded from symbolic wire bytes'),
+    Obligation('O2_extract', h_extract, [dict(kind=k, tagged=t) for k in ('ip', 'arp', 'other') for t in (False, True)],
+               witnesses=('extracted', 'fragment', 'ports', 'icmp'), max_decisions=20000,
+               desc='from_packet field extraction vs byte-offset extractor: VLAN tag, ARP, ICMP type/code, fragments (MF or offset) zero the ports'),
     Obligation('O3_lookup', h_lookup, [dict(n=k) for k in range(1, (3 if thorough else 2) + 1)], witnesses=('hit', 'miss'),
                desc='table sorted after every add_entry; lookup returns a matching entry of maximal effective priority; miss iff none'),
     Obligation('O3_lookup_frame', h_lookup_real, [dict(n=1)] + ([dict(n=2)] if thorough else []), witnesses=('hit',),
